@@ -202,13 +202,13 @@ type Prog struct {
 	Typed  bool   `json:"typed,omitempty"` // built by the typed generator inside the modelled fragment: judged by the oracle
 }
 
-func eName(n string) *Expr               { return &Expr{K: "name", Name: n} }
-func eLit(v *Val) *Expr                  { return &Expr{K: "lit", Lit: v} }
-func eAttr(a *Expr, n string) *Expr      { return &Expr{K: "attr", Name: n, A: []*Expr{a}} }
-func eIf(c, t, f *Expr) *Expr            { return &Expr{K: "if", A: []*Expr{c, t, f}} }
-func eCall(f string, a ...*Expr) *Expr   { return &Expr{K: "call", Name: f, A: a} }
-func eUn(op string, a *Expr) *Expr       { return &Expr{K: "un", Op: op, A: []*Expr{a}} }
-func eBin(op string, l, r *Expr) *Expr   { return &Expr{K: "bin", Op: op, A: []*Expr{l, r}} }
+func eName(n string) *Expr             { return &Expr{K: "name", Name: n} }
+func eLit(v *Val) *Expr                { return &Expr{K: "lit", Lit: v} }
+func eAttr(a *Expr, n string) *Expr    { return &Expr{K: "attr", Name: n, A: []*Expr{a}} }
+func eIf(c, t, f *Expr) *Expr          { return &Expr{K: "if", A: []*Expr{c, t, f}} }
+func eCall(f string, a ...*Expr) *Expr { return &Expr{K: "call", Name: f, A: a} }
+func eUn(op string, a *Expr) *Expr     { return &Expr{K: "un", Op: op, A: []*Expr{a}} }
+func eBin(op string, l, r *Expr) *Expr { return &Expr{K: "bin", Op: op, A: []*Expr{l, r}} }
 func eBinSv(op string, l, r *Expr, sv string) *Expr {
 	return &Expr{K: "bin", Op: op, A: []*Expr{l, r}, Sv: sv}
 }
